@@ -642,14 +642,8 @@ ApplyVDrop(st, e) ==
   IF ~Has(st.actors, e.aid) THEN R(st, {}) ELSE
   LET a == st.actors[e.aid]
       r0 == IF a.s # "zombie" /\ st.alive = "live" THEN ImplicitDropTerm(st, e.aid) ELSE R(st, {})
-      \* the value's slab goes with it: its children lose their owner
-      kids == IF st.alive = "live" THEN a.slab ELSE {}
-      kseq == SetToSeq(kids)
-      terms == [i \in 1..Len(kseq) |-> [Entry("term", 0, kseq[i], FALSE, Tag(st)) EXCEPT !.grp = 1000 + e.aid]]
-      s1 == [r0.st EXCEPT !.actors = [x \in DOMAIN @ |->
-                                        IF x = e.aid THEN [@[x] EXCEPT !.vdropped = TRUE]
-                                        ELSE IF x \in kids THEN [@[x] EXCEPT !.own = @ - 1] ELSE @[x]],
-                          !.mainQ = @ \o SelectSeq(terms, LAMBDA t : r0.st.actors[t.aid].own = 1)]
+      \* (the value's slab goes with it, after what the value's Drop handler defers: event `slabdrop`)
+      s1 == [r0.st EXCEPT !.actors[e.aid].vdropped = TRUE]
   IN IF ~a.hasval /\ a.s = "zombie"
      THEN \* a value returned by a Prep step that also failed/stopped the actor: it never became
           \* the actor's value; it is simply dropped when that step returns
@@ -661,6 +655,16 @@ ApplyVDrop(st, e) ==
            \cup B(a.vdropped, "C03", "actor value dropped twice")
            \cup B(a.running > 0, "C03", "actor value dropped while one of its methods is running")
            \cup B(a.notified /\ a.cause # "none", "C03", "actor value dropped after the termination notification"))
+
+\* the slab kept in an actor's value is dropped: its children lose their owner
+ApplySlabDrop(st, e) ==
+  IF ~Has(st.actors, e.aid) THEN R(st, {}) ELSE
+  LET a == st.actors[e.aid]
+      kids == IF st.alive = "live" THEN a.slab ELSE {}
+      kseq == SetToSeq(kids)
+      terms == [i \in 1..Len(kseq) |-> [Entry("term", 0, kseq[i], FALSE, Tag(st)) EXCEPT !.grp = 1000 + e.aid]]
+  IN R([st EXCEPT !.actors = [x \in DOMAIN @ |-> IF x \in kids THEN [@[x] EXCEPT !.own = @ - 1] ELSE @[x]],
+                  !.mainQ = @ \o SelectSeq(terms, LAMBDA t : st.actors[t.aid].own = 1)], {})
 
 ApplyNotify(st, e) ==
   IF ~Has(st.actors, e.aid) THEN R(st, {}) ELSE
@@ -688,6 +692,7 @@ ApplyNotify(st, e) ==
   IN R([s2 EXCEPT !.logrecs = << >>],
        r0.bad \cup lbad
        \cup B(a0.notified, "C03", "StopCause notifier invoked more than once")
+       \cup B("intact" \in DOMAIN e /\ ~e.intact, "C03", "error payload of the StopCause was not delivered intact")
        \cup B(none /\ st.alive = "live", "C03", "StopCause notifier dropped without being invoked")
        \cup B(~none /\ a.s # "zombie", "C03", "notifier invoked for an actor that did not terminate")
        \cup B(~none /\ a.s = "zombie" /\ e.cause # a.cause, "C03", "notifier cause is not the termination request that took effect first")
@@ -902,6 +907,8 @@ Apply1(st, e) ==
               {})
     [] e.e = "startinst" -> R(st, B(e.t # <<0, 0>>, "C15", "start_instant() changed"))
     [] e.e = "corrupt" -> R(st, {<<"C01", "captured data corrupted or misaligned">>, <<"C16", "captured data corrupted or misaligned">>, <<"C17", "captured data corrupted or misaligned">>})
+    [] e.e = "argswap" -> R(st, {<<"C02", "a call / forwarded message arrived with other arguments than it was made with">>,
+                                   <<"C05", "a call / forwarded message arrived with other arguments than it was made with">>})
     [] e.e = "reenter" -> R(st, {<<"C03", "actor method re-entered">>})
     [] e.e = "dropstakker" -> R([Settle(st) EXCEPT !.alive = "dropping"], {})
     [] e.e = "droppedstakker" -> ApplyDropped(st)
@@ -915,7 +922,12 @@ Apply1(st, e) ==
     [] e.e = "vdrop" ->
          IF e.aid \in st.oldgen /\ Has(st.actors, e.aid)
          THEN R([st EXCEPT !.actors[e.aid].vdropped = TRUE], B(st.actors[e.aid].vdropped, "C16", "actor value dropped twice"))
-         ELSE ApplyVDrop(st, e)
+         ELSE LET r == ApplyVDrop(st, e) IN
+              \* the state is Zombie before the value goes (to_zombie sets the packed state first)
+              R(r.st, r.bad \cup B("zombie" \in DOMAIN e /\ ~e.zombie /\ st.alive = "live" /\ Has(st.actors, e.aid)
+                                     /\ st.actors[e.aid].hasval,
+                                   "C03", "is_zombie() still false while termination drops the actor's value"))
+    [] e.e = "slabdrop" -> ApplySlabDrop(st, e)
     [] e.e = "notify" ->
          IF e.aid \in st.oldgen /\ e.cause # "none" /\ st.alive = "live" /\ Has(st.actors, e.aid) /\ ~st.actors[e.aid].notified
          THEN R([st EXCEPT !.actors[e.aid].notified = TRUE],
